@@ -140,6 +140,11 @@ impl Group for Secp256K1Group {
     fn deserialize(buf: &Self::Serialization) -> Result<Self::Element, GroupError> {
         let encoded_point =
             k256::Sec1Point::from_bytes(buf).map_err(|_| GroupError::MalformedElement)?;
+        // Only the compressed encoding (tag 0x02 or 0x03) is canonical; the SEC1 "compact"
+        // tag 0x05 has the same length and would decode to a point that serializes differently.
+        if !encoded_point.is_compressed() {
+            return Err(GroupError::MalformedElement);
+        }
 
         match Option::<AffinePoint>::from(AffinePoint::from_sec1_point(&encoded_point)) {
             Some(point) => {
